@@ -374,6 +374,13 @@ def c06_extra(ctx):
         rep = V.run_handler_scenario(sd, 12)
         for v in rep["violations"][:2]:
             ctx.violation("handler access path: " + v["what"][:600], dict(engine="V", seed=sd, script=v.get("script")))
+    # a handler that had to subscribe again (it fell behind during a burst) is still scoped to its context
+    lp = robust(lambda _sd: V.handler_lag_probe(), "handler lag probe")(0)
+    ctx.coverage["lag_probe"] = lp
+    if lp.get("foreign_served"):
+        ctx.violation(f"a handler registered in context B was invoked for {lp['foreign_served']} of {lp['foreign_appended']} `trig` frames appended to the "
+                      f"zero context (after it fell behind during a burst of {lp['appended']} frames and had to subscribe again)",
+                      dict(engine="V", probe="handler_lag_probe", result=lp))
     # nu commands inside scripts: .cat / .head see only the script's context unless another one is named
     pr = V.nu_scope_probe()
     ctx.coverage["nu_scope_probe"] = {k: pr.get(k) for k in ("n_out", "content", "out_ctx")}
@@ -972,6 +979,10 @@ def handler_run(pid, extra=None):
             ctx.coverage["lag_probe"] = lp
             if lp.get("error"):
                 ctx.violation("handler lag probe: " + lp["error"], dict(engine="V", probe="handler_lag_probe", theorem_or_correspondence="engine V lag probe"), no_input=True)
+            elif lp.get("foreign_served"):
+                ctx.violation(f"a handler registered in context B was invoked for {lp['foreign_served']} of {lp['foreign_appended']} `trig` frames appended to "
+                              f"the zero context (after it fell behind during a burst of {lp['appended']} frames and had to subscribe again)",
+                              dict(engine="V", probe="handler_lag_probe", result=lp))
             elif lp["unregistered"] == 0 and (lp["missing"] or lp["dups"] or not lp["in_order"]):
                 ctx.violation(f"a handler that was busy for 3 s while {lp['appended']} frames were appended to its context was afterwards invoked for "
                               f"{lp['outs']} of the {lp['triggers']} trigger frames ({lp['missing']} never, {lp['dups']} twice, in order: {lp['in_order']}; the "
